@@ -147,7 +147,15 @@ fn site_cases(tier: Tier) -> Vec<SiteCase> {
         for site in 0..8u8 {
             let ns: Vec<usize> = match site {
                 5 | 6 => vec![0],
-                7 => (0..=6).collect(),
+                7 => {
+                    // reason strings around the control-packet buffer and straddling m (encoded length = n + 8)
+                    let mut v: Vec<usize> = (0..=6).collect();
+                    let lo = (m as usize).saturating_sub(12);
+                    v.extend(lo..=m as usize + 3);
+                    v.sort();
+                    v.dedup();
+                    v
+                }
                 _ => {
                     // sizes whose encoded length straddles m (encoded length = n + 6..9 (+1 above 127))
                     let lo = (m as usize).saturating_sub(12);
@@ -492,7 +500,7 @@ pub fn run(tier: Tier, caps: &Caps) -> Vec<FamilyReport> {
         "C14",
         sc.len() as u64,
         caps,
-        json!({"cases": sc.len(), "dimensions": "broker Maximum Packet Size 2..=40 and 126..=133 (thorough: 2..=133, 255..257, 300) x {publish QoS 0/1/2, subscribe, unsubscribe} with sizes straddling the limit, disconnect(), disconnect with reason, disconnect with reason strings 0..6; each compared with an unlimited twin; followed by a resumed unlimited connection to expose anything retained"}),
+        json!({"cases": sc.len(), "dimensions": "broker Maximum Packet Size 2..=40 and 126..=133 (thorough: 2..=133, 255..257, 300) x {publish QoS 0/1/2, subscribe, unsubscribe} with sizes straddling the limit, disconnect(), disconnect with reason, disconnect with reason strings 0..6 and of lengths straddling the limit; each compared with an unlimited twin; followed by a resumed unlimited connection to expose anything retained"}),
         &|i| eval_site(&sc[i as usize]),
         &|i| serde_json::to_value(&sc[i as usize]).unwrap(),
     ));
